@@ -636,7 +636,10 @@ func (r *FeatureLocal) HandleMessage(message *api.Message) *model.ErrorType {
 		}
 	case model.CmdClassifierTypeWrite:
 		// if there is a write permission check callback set, invoke this instead of directly allowing the write
-		if len(r.writeApprovalCallbacks) > 0 {
+		r.muxResponseCB.Lock()
+		approvalCallbacks := len(r.writeApprovalCallbacks)
+		r.muxResponseCB.Unlock()
+		if approvalCallbacks > 0 {
 			r.addPendingApproval(message)
 			r.processWriteApprovalCallbacks(message)
 		} else {
